@@ -36,12 +36,14 @@ Cases ==
       [] Family = "setget" -> {[k |-> "setget", h |-> h] : h \in UNION {[1..n -> SetOps] : n \in 1..MaxT}}
       [] Family = "convert" -> {x \in {[k |-> "convert", toSSE |-> d, headParts |-> hp, removeParallax |-> rp, calcBounds |-> cb, fixBSX |-> fb, fixShader |-> fs,
                                         skinned |-> sk, colors |-> co, strips |-> st, parts |-> pa, dupNames |-> dn, manyBones |-> mb, odd |-> od] :
-                                            d, hp, rp, cb, fb, fs, sk, co, st, pa, dn, mb \in BOOLEAN, od \in {"", "rootLater", "uncovered", "sharedData"}} :
+                                            d, hp, rp, cb, fb, fs, sk, co, st, pa, dn, mb \in BOOLEAN, od \in {"", "rootLater", "uncovered", "sharedData", "twoSided", "slotWeights"}} :
                                     \* odd: the file stores a data block in front of its root / a skinned shape has triangles its partitions do
                                     \* not list (geometry edited without a partition rebuild) / two shapes share one geometry data block
                                     /\ (x.manyBones => (x.skinned /\ ~x.headParts /\ ~x.dupNames /\ ~x.strips))
-                                    /\ (x.odd # "" => (x.toSSE /\ ~x.headParts /\ ~x.dupNames /\ ~x.strips /\ ~x.manyBones /\ ~x.removeParallax /\ ~x.fixBSX))
-                                    /\ (x.odd = "uncovered" => x.skinned)}
+                                    \* twoSided: every triangle also with the opposite winding; slotWeights (SE to LE): no weights in the skin
+                                    \* data block, and in the vertex records empty weight slots in front of used ones
+                                    /\ (x.odd # "" => ((x.toSSE = (x.odd # "slotWeights")) /\ ~x.headParts /\ ~x.dupNames /\ ~x.strips /\ ~x.manyBones /\ ~x.removeParallax /\ ~x.fixBSX))
+                                    /\ (x.odd \in {"uncovered", "twoSided", "slotWeights"} => x.skinned)}
       [] Family = "partassign" -> UNION {{[k |-> "partassign", nt |-> nt, np |-> np, L |-> L] : L \in [1..nt -> -1..np]} : nt \in 1..(MaxT - 1), np \in 1..3}
 Expected(x) ==
     CASE x.k = "delverts" -> [labels |-> Erase(Iota(x.nv), x.I), tris |-> MapTris(x.tris, CollapseMap(x.I, x.nv))]
